@@ -81,7 +81,20 @@ def _accept_remembered_newlines(model, want, snap, prev_snap):
     If that is the only difference, let the model follow the file."""
     from ..model import encode_text
 
-    if prev_snap is None or not model._undo:
+    if prev_snap is None:
+        return False
+    if not model._undo:
+        # with a limit of 0 the step's record has already been folded into the model's base tree:
+        # the same acceptance applies to the base
+        differing = [k for k in set(snap) | set(want) if snap.get(k) != want.get(k)]
+        if model.limit == 0 and len(differing) == 1:
+            pth = differing[0]
+            a, w = snap.get(pth), want.get(pth)
+            lbfree = [v for v in prev_snap.values() if isinstance(v, bytes) and b"\n" not in v and b"\r" not in v]
+            if isinstance(a, bytes) and isinstance(w, bytes) and lbfree and b"\r" not in w and \
+                    a in (w.replace(b"\n", b"\r\n"), w.replace(b"\n", b"\r")):
+                model.base.files[pth] = a
+                return True
         return False
     differing = [k for k in set(snap) | set(want) if snap.get(k) != want.get(k)]
     if len(differing) != 1:
@@ -120,8 +133,9 @@ def check_invariant(out, world, model, i, st, sig_extra=None, prev_snap=None):
         (st["op"] == "do" and real_u and real_u[-1] == st["cs"]["desc"]) or (st["op"] == "refactor" and real_u and real_u[-1] == "rf%d" % st["id"])
         or model.limit == 0)
     ignored_only = st["op"] == "do" and all(is_ignored_path(x) for x in touched_paths(st["cs"]["ops"]))
-    # the limit is enforced whenever a change is recorded
-    if len(real_u) > model.limit and recorded_now and not ignored_only:
+    # the limit is enforced whenever something is put on the undo list: a recorded change or a redo
+    appended = (recorded_now and not ignored_only) or (st["op"] in ("redo", "redo_sel", "undo_redo") and not sig.get("exc") and not sig.get("skipped"))
+    if len(real_u) > model.limit and appended:
         ok = False
         out.violate("limit_exceeded", sig, {"step": i, "limit": model.limit, "undo_list": real_u}, where=i)
     if real_u != mod_u or real_r != mod_r:
